@@ -89,6 +89,12 @@ func Clean(m *testing.M, opts ...CleanOpts) {
 		standaloneOccurrenceFMT,
 	)
 	registeredTests := testsRegistry.highest
+	// a snapshot directory can be reached under more than one spelling (through a symlink,
+	// as a relative and as an absolute path), what is registered is keyed by spelling.
+	registeredTests, registeredStandaloneTests = oneSpelling(
+		registeredTests,
+		registeredStandaloneTests,
+	)
 
 	obsoleteFiles, usedFiles := examineFiles(
 		registeredTests,
@@ -154,6 +160,73 @@ func isNumber(b []byte) bool {
 	}
 
 	return true
+}
+
+// oneSpelling returns what was registered with every directory known under one spelling
+// only. Snapshots are registered under the path they were addressed with, when the same
+// directory was addressed under several spellings what was registered under one of them
+// would look unused (obsolete) while the directory is examined under another.
+//
+// Directories addressed under a single spelling, the usual case, are left as they are.
+func oneSpelling(
+	tests map[string]map[string]int,
+	standaloneTests set,
+) (map[string]map[string]int, set) {
+	realDir := func(dir string) string {
+		if resolved, err := filepath.EvalSymlinks(dir); err == nil {
+			dir = resolved
+		}
+		if abs, err := filepath.Abs(dir); err == nil {
+			dir = abs
+		}
+
+		return dir
+	}
+
+	// real directory -> the spelling standing for it (the first in lexical order)
+	spelling := map[string]string{}
+	several := false
+	see := func(snapPath string) {
+		dir := filepath.Dir(snapPath)
+		real := realDir(dir)
+		if s, seen := spelling[real]; !seen {
+			spelling[real] = dir
+		} else if s != dir {
+			several = true
+			if dir < s {
+				spelling[real] = dir
+			}
+		}
+	}
+	for snapPath := range tests {
+		see(snapPath)
+	}
+	for snapPath := range standaloneTests {
+		see(snapPath)
+	}
+	if !several {
+		return tests, standaloneTests
+	}
+
+	one := func(snapPath string) string {
+		return filepath.Join(spelling[realDir(filepath.Dir(snapPath))], filepath.Base(snapPath))
+	}
+	mergedTests := make(map[string]map[string]int, len(tests))
+	for snapPath, occurrences := range tests {
+		snapPath = one(snapPath)
+		if mergedTests[snapPath] == nil {
+			mergedTests[snapPath] = make(map[string]int, len(occurrences))
+		}
+		for test, highest := range occurrences {
+			mergedTests[snapPath][test] = max(mergedTests[snapPath][test], highest)
+		}
+	}
+	mergedStandaloneTests := make(set, len(standaloneTests))
+	for snapPath := range standaloneTests {
+		mergedStandaloneTests[one(snapPath)] = struct{}{}
+	}
+
+	return mergedTests, mergedStandaloneTests
 }
 
 // examineFiles traverses all the directories where snap tests where executed and checks
